@@ -690,6 +690,9 @@ func (m *PktModel) recvProbes(w *world.World, g Ghost, p packettypes.Packet, at 
 	add("proof-height+1", p, prev, ckey(p), 1, nil)
 	add("proof-height-unknown", p, prev, ckey(p), 1000, nil)
 	add("proof-truncated", p, prev, ckey(p), 0, func(b []byte) []byte { return b[:len(b)/2] })
+	for _, sh := range proofShapes {
+		add(sh.name, p, prev, ckey(p), 0, sh.f)
+	}
 	add("proof-garbage", p, prev, ckey(p), 0, func(b []byte) []byte { return []byte("garbage-proof-bytes") })
 	add("proof-bitflip", p, prev, ckey(p), 0, func(b []byte) []byte { c := append([]byte{}, b...); c[len(c)/2] ^= 0x10; return c })
 	add("proof-empty", p, prev, ckey(p), 0, func(b []byte) []byte { return []byte{} })
@@ -844,6 +847,9 @@ func (m *PktModel) ackProbes(w *world.World, g Ghost, p packettypes.Packet, at s
 	add("proof-height+1", p, genuine, next, akey(p), 1, nil)
 	add("proof-height-unknown", p, genuine, next, akey(p), 1000, nil)
 	add("proof-truncated", p, genuine, next, akey(p), 0, func(b []byte) []byte { return b[:len(b)/2] })
+	for _, sh := range proofShapes {
+		add(sh.name, p, genuine, next, akey(p), 0, sh.f)
+	}
 	add("proof-garbage", p, genuine, next, akey(p), 0, func(b []byte) []byte { return []byte("garbage-proof-bytes") })
 	add("proof-bitflip", p, genuine, next, akey(p), 0, func(b []byte) []byte { c := append([]byte{}, b...); c[len(c)/2] ^= 0x10; return c })
 	for _, port := range []string{"tibcmock", "NFT", "MT", "unrouted"} {
